@@ -8,13 +8,13 @@ ENGINE = 'detsched'
 TECHNIQUE = 'runtime monitoring under a deterministic cooperative scheduler with a virtual clock: queue-operation log checked for any posting by the rejected source; tracked sources checked against their ideal schedule'
 RULE = ('an ActiveObject subclass with a small tracked-source capacity (QUEUE_SIZE 2-4; capacity 500 through the public API in the thorough '
         'tier) is filled with timed sources (long and short periods), then a further timed post is made (fifo/lifo, deferred or not, short '
-        'period, from outside or from a handler): it must raise ActiveObjectOutOfPostedEventResources, its event must never be appended to the '
+        'period - also period 0 -, any repeat count, from outside or from a handler): it must raise ActiveObjectOutOfPostedEventResources, its event must never be appended to the '
         'queue under any interleaving of the rejected source\'s thread with the caller (random / PCT schedules, run past several periods), and '
         'the sources tracked before must keep their ideal posting schedule. Every fourth case leaves exactly ONE free slot and lets 2-3 threads arm a timed post at once: exactly one is accepted, the others are refused and never fire, and every source tracked before is still tracked. distinct_nontrivial = distinct (capacity, rejected-source '
         'parameters, inside/outside, context-switch sequence prefix) tuples')
 CASES = {'quick': 1000, 'thorough': 50000}
 BUDGET = {'quick': 150, 'thorough': 300}
-REQUIRE = {'runs': 400, 'rejected_nondeferred': 100, 'rejected_deferred': 100, 'rejected_from_handler': 50, 'concurrent_runs': 150}
+REQUIRE = {'runs': 400, 'rejected_nondeferred': 100, 'rejected_deferred': 100, 'rejected_from_handler': 50, 'concurrent_runs': 150, 'rejected_with_zero_period': 100}
 ASSUME = ['instantaneous-computation time model']
 ANNOUNCE_CASES = True
 
@@ -104,8 +104,12 @@ def run_case(ctx, n):
   for i in range(cap):
     tracked.append({'i': i, 'sig': rng.choice(['TICK_A', 'TICK_B']), 'kind': rng.choice(['fifo', 'lifo']),
                     'period': rng.choice([0.05, 0.1, 100.0, 100.0]) if cap < 100 else 100.0, 'times': rng.choice([0, 0, 3]), 'deferred': rng.choice([True, False, None]), 'start_delay': 0.0})
-  rej = {'i': cap, 'sig': rng.choice(['TICK_A', 'TICK_R']), 'kind': rng.choice(['fifo', 'lifo']), 'period': rng.choice([0.01, 0.05]),
-         'times': rng.choice([0, 1, 3]), 'deferred': rng.choice([True, False, False, None]), 'start_delay': 0.0}
+  rej = {'i': cap, 'sig': rng.choice(['TICK_A', 'TICK_R']), 'kind': rng.choice(['fifo', 'lifo']), 'period': rng.choice([0.01, 0.05, 0.01, 0, 0.0]),
+         'times': rng.choice([0, 1, 1, 3]), 'deferred': rng.choice([True, False, False, None]), 'start_delay': 0.0}
+  if rej['period'] == 0 and rej['times'] == 0:
+    rej['times'] = 1           # (period 0 forever would spin: finite sources only)
+  if rej['period'] == 0:
+    ctx.count('rejected_with_zero_period')
   inside = rng.random() < 0.3
   pol = aosim.policy_for(rng, est_len=800, fair_suffix=False)
   s = ds.Sched(seed=rng.randrange(1 << 30), max_steps=5000000, horizon=1e9, **pol)
